@@ -88,9 +88,15 @@ def antideriv (p : List Rat) : List Rat := 0 :: antiderivFrom 0 p
 def certOne (p : List Rat) (a b : Rat) : Bool :=
   decide (a < b) && allNonpos (mob a b p) && decide (eval p b ≤ 0)
 
-/-- sign certificate for `p ≤ 0` on `[c₀, cₘ]` given cut points `c₀ < c₁ < … < cₘ` -/
+/-- sign certificate for `p ≤ 0` on `[c₀, cₘ]` given cut points `c₀ < c₁ < … < cₘ` (m ≥ 1) -/
 def certCuts (p : List Rat) : List Rat → Bool
+  | [a, b] => certOne p a b
   | a :: b :: rest => certOne p a b && certCuts p (b :: rest)
-  | _ => true
+  | _ => false
+
+/-- last element of `a :: l` -/
+def lastOr (a : Rat) : List Rat → Rat
+  | [] => a
+  | b :: r => lastOr b r
 
 end PysphVerif.Poly
